@@ -70,9 +70,11 @@ def validate(module_file, constants_cfg, traces, ctx, name, timeout=300, dfs=Fal
     return [results[i + 1] for i in range(len(traces))]
 
 
-def corrupt(traces, mutator_ops):
-    """Type-preserving corruption for the binding self-test: make one state-changing event report
-    the state before it. Returns a one-trace list, or None if no suitable event exists."""
+def corrupt(traces, mutator_ops, limit=6):
+    """Type-preserving corruptions for the binding self-test: copies of recorded traces in which ONE state-changing event reports
+    the state before it. Several candidates (different events): where the specification leaves a choice (e.g. a flag it does not
+    fix after a failed operation) a single candidate could happen to be legal too."""
+    out = []
     for t in traces:
         for i in range(1, len(t)):
             if t[i].get("hs", 1) == 0 or t[i - 1].get("hs", 1) == 0:
@@ -80,8 +82,11 @@ def corrupt(traces, mutator_ops):
             if t[i]["op"].get("op") in mutator_ops and canon(t[i]["st"]) != canon(t[i - 1]["st"]):
                 bad = copy.deepcopy(t)
                 bad[i]["st"] = bad[i - 1]["st"]
-                return [bad], i
-    return None, None
+                out.append((bad, i))
+                if len(out) >= limit:
+                    return out
+                break           # at most one candidate per trace: spread them over different histories
+    return out
 
 
 def check_traces(module_file, constants_cfg, traces, ctx, name, mutator_ops, sig_fn=None, dfs=False, timeout=300,
@@ -103,14 +108,17 @@ def check_traces(module_file, constants_cfg, traces, ctx, name, mutator_ops, sig
                    "first unmatched event %s (state before: %s)" % (
                        name, i, matched, total, json.dumps(ev), json.dumps(traces[i][matched - 1]["st"]) if matched else "initial")
             ctx.violation(sig, desc, {"engine": "tracecheck", "spec": name, "trace": traces[i][:matched + 1]})
-    # binding self-test: a corrupted copy must be rejected
-    bad, at = corrupt(traces, mutator_ops)
-    if bad is not None:
-        v = validate(module_file, constants_cfg, bad, ctx, name + "_selftest", timeout=timeout, dfs=dfs, extra_cfg=extra_cfg)
+    # binding self-test: corrupted copies of recorded traces must be rejected (at least one of the candidates)
+    cands = corrupt(traces, mutator_ops)
+    if cands:
+        v = validate(module_file, constants_cfg, [c[0] for c in cands], ctx, name + "_selftest", timeout=timeout, dfs=dfs, extra_cfg=extra_cfg)
         ctx.tlc_runs[-1]["selftest"] = True
-        if v[0][0] == v[0][1] and verdicts and not rejected:
-            raise tlc.MachineryError("%s: binding self-test failed, a corrupted trace (event %d) was accepted" % (name, at))
-        ctx.extra.setdefault("selftests", []).append({"spec": name, "corrupted_event": at, "matched": v[0][0], "of": v[0][1]})
+        rejected_c = sum(1 for m, t in v if m != t)
+        if rejected_c == 0 and verdicts and not rejected:
+            bad, at = cands[0]
+            raise tlc.MachineryError("%s: binding self-test failed, %d corrupted traces were all accepted, e.g. event %d: %s" % (
+                name, len(cands), at, json.dumps(bad[max(0, at - 1):at + 1])[:1500]))
+        ctx.extra.setdefault("selftests", []).append({"spec": name, "corrupted_traces": len(cands), "rejected": rejected_c})
     ctx.extra.setdefault("trace_batches", []).append(
         {"spec": name, "traces": len(traces), "events": sum(len(t) for t in traces), "rejected": rejected})
     if traces:
